@@ -165,8 +165,11 @@ func verifC09Servers(maxLen int) {
 	fam := verifChoose("family", len(verifFamilies))
 	templates := verifFamilies[fam]
 	doc, ops := verifDoc(templates, verifChoose("postOn", len(templates)))
-	sv := 1 + verifChoose("servers", 3)
+	sv := 1 + verifChoose("servers", 4)
 	switch sv {
+	case 4:
+		// one server's base path is a prefix of the other's
+		doc.Servers = openapi3.Servers{{URL: "/v1"}, {URL: "/v1/a"}}
 	case 1:
 		doc.Servers = openapi3.Servers{{URL: "/v1"}}
 	case 2:
@@ -187,9 +190,12 @@ func verifC09Servers(maxLen int) {
 	path := string(bs)
 	method := []string{"GET", "POST", "PUT"}[verifChoose("method", 3)]
 	reqBase := []string{"", "/v1", "/v2"}[verifChoose("reqBase", 3)]
+	if sv == 4 {
+		reqBase = "/v1/a" // also a URL of the first server with the path "/a"+path
+	}
 	u := &url.URL{Path: reqBase + path}
 	hostOK := true
-	if sv >= 2 {
+	if sv == 2 || sv == 3 {
 		switch verifChoose("reqOrigin", 3) {
 		case 0:
 			u.Scheme, u.Host = "https", "h.example"
@@ -221,6 +227,15 @@ func verifC09Servers(maxLen int) {
 	}
 	var matching []string
 	literal := ""
+	if sv == 4 {
+		serverOK, rest = true, path
+		// under the first server the same URL has the path "/a"+path
+		for _, t := range templates {
+			if _, ok := verifRefMatch(t, "/a"+path); ok && ops[t][method] != nil {
+				matching = append(matching, t)
+			}
+		}
+	}
 	if serverOK {
 		for _, t := range templates {
 			if _, ok := verifRefMatch(t, rest); ok && ops[t][method] != nil {
@@ -241,6 +256,8 @@ func verifC09Servers(maxLen int) {
 	if ferr != nil {
 		_, isRouteErr := ferr.(*routers.RouteError)
 		verifAssert(isRouteErr, "C09 servers: a request that is not routed yields a RouteError")
+		// known finding: only the first server whose URL is a prefix of the request is tried
+		verifKnown("C09-legacy-first-matching-server-only", sv == 4)
 		verifAssert(len(matching) == 0, "C09 servers complete: every path obtained by filling a declared template under a declared server and method is routed")
 		verifReach("end")
 		return
@@ -251,6 +268,9 @@ func verifC09Servers(maxLen int) {
 	}
 	verifAssert(serverOK, "C09 servers: a URL under no declared server is not routed")
 	want, ok := verifRefMatch(route.Path, rest)
+	if !ok && sv == 4 {
+		want, ok = verifRefMatch(route.Path, "/a"+path) // the same URL read under the shorter server
+	}
 	verifAssert(ok, "C09 servers sound: the returned route's template matches the request path after the server's base path")
 	verifAssert(route.Operation != nil && route.Operation == ops[route.Path][method], "C09 servers sound: the returned operation is the one declared for the method under the returned template")
 	if ok {
@@ -267,13 +287,13 @@ func verifC09Servers(maxLen int) {
 		}
 		verifAssert(same && len(params) == len(want)+len(serverVars), "C09 servers sound: substituting the returned parameters into server base and template reproduces the request path")
 	}
-	if literal != "" {
+	if literal != "" && sv != 4 {
 		verifAssert(route.Path == literal, "C09 servers priority: a literal path wins over a templated one")
 	}
 	verifReach("end")
 }
 
-//verif:harness id=C09 tier=quick witness=end bounds="legacy router under servers in {/v1, https://h.example/v1, https://h.example/{b}} x request base in {none,/v1,/v2} x origin in {https://h.example, other host, http} x 5 template families x GET/POST/PUT x every path '/'+ up to 3 symbolic bytes over {/,a,b,c} after the base"
+//verif:harness id=C09 tier=quick witness=end bounds="legacy router under servers in {/v1, https://h.example/v1, https://h.example/{b}, two servers /v1 and /v1/a of which one is a prefix of the other} x request base in {none,/v1,/v2} x origin in {https://h.example, other host, http} x 5 template families x GET/POST/PUT x every path '/'+ up to 3 symbolic bytes over {/,a,b,c} after the base"
 func verifH_C09_legacy_servers() { verifC09Servers(4) }
 
 //verif:harness id=C09 tier=thorough witness=end bounds="as quick with paths of up to 5 bytes"
